@@ -176,6 +176,9 @@ func cmdCheck(args []string) {
 		os.Exit(0)
 	}
 	loadS := time.Since(t0).Seconds()
+	for _, x := range eng.Excluded {
+		fmt.Printf("INCONCLUSIVE property=%s reason=%q\n", *prop, "harness file "+x+" does not type-check against this tree and was left out; its obligations are undecided")
+	}
 
 	var reports []*runReport
 	for _, rs := range spec.Runs {
@@ -266,6 +269,9 @@ func cmdCheck(args []string) {
 				g = &vioGroup{first: v, params: rep.params, spec: rep.spec}
 				groups[k] = g
 				order = append(order, k)
+			} else if (g.first.UF && !v.UF) || (g.first.UF == v.UF && g.first.ND > 0 && v.ND == 0) {
+				// prefer a representative whose model is realisable natively (no uninterpreted stand-ins, no schedule choices)
+				g.first, g.params, g.spec = v, rep.params, rep.spec
 			}
 			g.count++
 		}
@@ -328,7 +334,7 @@ func cmdCheck(args []string) {
 				h := sha1.Sum([]byte(fmt.Sprintf("%s-%s-%d", *prop, sub, time.Now().UnixNano())))
 				keep = filepath.Join(replayDirBase, fmt.Sprintf("%s-%x", *prop, h[:4]))
 			}
-			res, raw, err := RunReplays(*repo, harnessDir, sub, cs, keep)
+			res, raw, err := RunReplays(*repo, harnessDir, sub, cs, keep, eng.Excluded)
 			if err != nil {
 				replayErr = err.Error() + "\n" + tail(raw, 2000)
 			}
